@@ -159,12 +159,11 @@ namespace Pistache::Http::Header
                                 "Invalid caching directive, missing delta-seconds");
                         }
 
+                        // str is not \0 terminated: convert a terminated copy of what is left
+                        const std::string rest(cursor.offset(), cursor.remaining());
                         char* end;
-                        const char* beg = cursor.offset();
-                        // @Security: if str is not \0 terminated, there might be a situation
-                        // where strtol can overflow. Double-check that it's harmless and fix
-                        // if not
-                        auto secs = strtol(beg, &end, 10);
+                        const char* beg = rest.c_str();
+                        auto secs       = strtol(beg, &end, 10);
                         cursor.advance(end - beg);
                         if (!cursor.eof() && cursor.current() != ',')
                         {
